@@ -385,3 +385,167 @@ def equiv_folded(test, repo, module, expected_text, cls=None, env=None, domain=N
     """equiv() of a guard in the code (names folded first) with an expected formula given as text"""
     e = _Folder(repo, module, cls, env).visit(_copy(test))
     return equiv(e, expected_text, domain)
+
+
+# ------------------------------------------------------------------------------------------------ arithmetic normal form
+def _is_bytes_expr(e):
+    if isinstance(e, ast.Constant) and isinstance(e.value, (bytes, str)):
+        return True
+    if isinstance(e, ast.Call) and isinstance(e.func, ast.Name) and e.func.id in ('bytes', 'bytearray'):
+        return True
+    if isinstance(e, ast.Call) and isinstance(e.func, ast.Attribute) and e.func.attr in ('to_bytes', 'digest', 'serialize', 'join', 'pack'):
+        return True
+    if isinstance(e, ast.BinOp) and isinstance(e.op, (ast.Add, ast.Mult)):
+        return _is_bytes_expr(e.left) or _is_bytes_expr(e.right)
+    if isinstance(e, ast.Subscript) and isinstance(e.slice, ast.Slice):
+        return True
+    return False
+
+
+def _pow2(v):
+    return isinstance(v, int) and not isinstance(v, bool) and v > 0 and v & (v - 1) == 0
+
+
+def canon_arith(e):
+    """Canonical text of an integer/bytes expression: constants folded, commutative operands sorted, integer-linear parts
+    in sum-of-terms form, and the power-of-two spellings unified (x & (2^k-1) = x % 2^k, x >> k = x // 2^k, x << k =
+    x * 2^k, x & ~(2^k-1) = x - x % 2^k, bytes(n) = b'\\x00' * n)."""
+    if isinstance(e, str):
+        e = ast.parse(e, mode='eval').body
+    return _ca(e)
+
+
+def _ca_int(e):
+    """constant integer value of e if literal-foldable"""
+    try:
+        v = ast.literal_eval(ast.unparse(e)) if not any(isinstance(n, (ast.Name, ast.Call, ast.Attribute, ast.Subscript)) for n in ast.walk(e)) else None
+    except Exception:
+        v = None
+    if v is None and not any(isinstance(n, (ast.Name, ast.Call, ast.Attribute, ast.Subscript)) for n in ast.walk(e)):
+        try:
+            v = eval(compile(ast.Expression(body=e), '<c>', 'eval'), {'__builtins__': {}})  # literals and operators only
+        except Exception:
+            v = None
+    return v if isinstance(v, int) and not isinstance(v, bool) else None
+
+
+def _ca(e):
+    c = _ca_int(e)
+    if c is not None:
+        return hex(c) if c >= 0 else '-' + hex(-c)
+    if isinstance(e, ast.Constant):
+        return repr(e.value)
+    if isinstance(e, ast.Call) and isinstance(e.func, ast.Name) and e.func.id == 'bytes' and len(e.args) == 1 and not e.keywords \
+            and not isinstance(e.args[0], (ast.List, ast.Tuple, ast.Constant)) and not _is_bytes_expr(e.args[0]):
+        return "Rep(%s,%s)" % (repr(b'\x00'), _ca(e.args[0]))
+    if isinstance(e, ast.BinOp):
+        op = type(e.op)
+        l, r = e.left, e.right
+        lc, rc = _ca_int(l), _ca_int(r)
+        if op is ast.BitAnd:
+            for x, xc in ((l, rc), (r, lc)):
+                if xc is not None and _pow2(xc + 1):
+                    return 'Mod(%s,%s)' % (_ca(x), hex(xc + 1))
+                if xc is not None and xc < 0 and _pow2(-xc):
+                    return _lin_text([(_ca(x), 1), ('Mod(%s,%s)' % (_ca(x), hex(-xc)), -1)], 0)
+        if op is ast.Mod and rc is not None and not _is_bytes_expr(l):
+            return 'Mod(%s,%s)' % (_ca(l), hex(rc))
+        if op is ast.RShift and rc is not None and 0 <= rc < 4096:
+            return 'Div(%s,%s)' % (_ca(l), hex(1 << rc))
+        if op is ast.FloorDiv and rc is not None:
+            return 'Div(%s,%s)' % (_ca(l), hex(rc))
+        if op is ast.LShift and rc is not None and 0 <= rc < 4096:
+            return _ca(ast.BinOp(left=l, op=ast.Mult(), right=ast.Constant(value=1 << rc)))
+        if op in (ast.Add, ast.Sub, ast.Mult) or (isinstance(e.op, ast.Add)):
+            if _is_bytes_expr(e):
+                if op is ast.Add:
+                    return 'Cat(%s,%s)' % (_ca(l), _ca(r))
+                if op is ast.Mult:
+                    a, b = (l, r) if _is_bytes_expr(l) else (r, l)
+                    return 'Rep(%s,%s)' % (_ca(a), _ca(b))
+            lin = _ca_linear(e)
+            if lin is not None:
+                return _lin_text(sorted(lin[0].items()), lin[1])
+        a, b = _ca(l), _ca(r)
+        if op in (ast.BitAnd, ast.BitOr, ast.BitXor, ast.Mult, ast.Add):
+            a, b = sorted([a, b])
+        return '%s(%s,%s)' % (op.__name__, a, b)
+    if isinstance(e, ast.UnaryOp):
+        if isinstance(e.op, ast.USub):
+            lin = _ca_linear(e)
+            if lin is not None:
+                return _lin_text(sorted(lin[0].items()), lin[1])
+        return '%s(%s)' % (type(e.op).__name__, _ca(e.operand))
+    if isinstance(e, ast.Call):
+        args = [_ca(a) for a in e.args] + ['%s=%s' % (k.arg, _ca(k.value)) for k in e.keywords]
+        return '%s(%s)' % (_ca(e.func) if not isinstance(e.func, ast.Name) else e.func.id, ','.join(args))
+    if isinstance(e, ast.Attribute):
+        return '%s.%s' % (_ca(e.value), e.attr)
+    if isinstance(e, ast.Subscript):
+        if isinstance(e.slice, ast.Slice):
+            lo = _ca(e.slice.lower) if e.slice.lower is not None else ''
+            hi = _ca(e.slice.upper) if e.slice.upper is not None else ''
+            st = ':' + _ca(e.slice.step) if e.slice.step is not None else ''
+            if lo == '0x0':
+                lo = ''
+            return '%s[%s:%s%s]' % (_ca(e.value), lo, hi, st)
+        return '%s[%s]' % (_ca(e.value), _ca(e.slice))
+    if isinstance(e, ast.Name):
+        return e.id
+    if isinstance(e, (ast.Tuple, ast.List)):
+        il = isinstance(e, ast.List)
+        return ('[' if il else '(') + ','.join(_ca(x) for x in e.elts) + (']' if il else ')')
+    if isinstance(e, ast.IfExp):
+        return 'If(%s,%s,%s)' % (canon_text(ast.unparse(e.test)), _ca(e.body), _ca(e.orelse))
+    return ast.unparse(e)
+
+
+def _ca_linear(e):
+    """({canonical atom: coef}, const) over +, -, * by constants; atoms are canonical texts of everything else"""
+    c = _ca_int(e)
+    if c is not None:
+        return {}, c
+    if isinstance(e, ast.UnaryOp) and isinstance(e.op, ast.USub):
+        r = _ca_linear(e.operand)
+        return ({k: -v for k, v in r[0].items()}, -r[1]) if r else None
+    if isinstance(e, ast.BinOp) and isinstance(e.op, (ast.Add, ast.Sub)) and not _is_bytes_expr(e):
+        a, b = _ca_linear(e.left), _ca_linear(e.right)
+        if a is None or b is None:
+            return None
+        sg = 1 if isinstance(e.op, ast.Add) else -1
+        t = dict(a[0])
+        for k, v in b[0].items():
+            t[k] = t.get(k, 0) + sg * v
+        return {k: v for k, v in t.items() if v}, a[1] + sg * b[1]
+    if isinstance(e, ast.BinOp) and isinstance(e.op, ast.Mult) and not _is_bytes_expr(e):
+        lc, rc = _ca_int(e.left), _ca_int(e.right)
+        if lc is not None or rc is not None:
+            k, x = (lc, e.right) if lc is not None else (rc, e.left)
+            r = _ca_linear(x)
+            if r is not None:
+                return {a: v * k for a, v in r[0].items() if v * k}, r[1] * k
+    if isinstance(e, ast.BinOp) and isinstance(e.op, ast.LShift):
+        rc = _ca_int(e.right)
+        if rc is not None and 0 <= rc < 4096:
+            r = _ca_linear(e.left)
+            if r is not None:
+                return {a: v << rc for a, v in r[0].items()}, r[1] << rc
+    if isinstance(e, ast.BinOp) and isinstance(e.op, ast.BitAnd):
+        t = _ca(e)
+        if t.startswith('Mod(') or not t.startswith('BitAnd('):
+            if not t.startswith(('Mod(', 'BitAnd(')):
+                # x & ~(2^k-1) expanded to a linear text: re-parse its parts is overkill; treat as one atom
+                return {t: 1}, 0
+            return {t: 1}, 0
+    return {_ca(e): 1}, 0
+
+
+def _lin_text(items, const):
+    parts = []
+    for k, c in sorted(items):
+        if c == 0:
+            continue
+        parts.append('%s%s' % ('' if c == 1 else ('-' if c == -1 else '%d*' % c), k))
+    if const or not parts:
+        parts.append(hex(const) if const >= 0 else '-' + hex(-const))
+    return 'Sum(%s)' % ','.join(parts) if len(parts) > 1 else parts[0]
